@@ -179,7 +179,7 @@ Fixpoint rs_chunked_length_loop (fuel : nat) (c : connp) : st * connp :=
     | None => (ST_DATA_BUFFER, c)
     | Some c =>
       let nb := match rs_nb c with Some b => b | None => 0%N end in
-      if (nb =? LF)%N || (negb (rs_is_chunked_ctl_char nb) && negb (rs_data_probe_chunk_length (rs_unconsumed c))) then
+      if (nb =? LF)%N || (negb (rs_is_chunked_ctl_char nb) && negb (rs_data_probe_chunk_length (rs_dbytes (k_buf (c_out c)) ++ rs_unconsumed c))) then
         match rs_consolidate c with
         | (None, c) => (ST_ERROR, c)
         | (Some data, c) =>
